@@ -121,6 +121,51 @@ class SplitAnd(ast.NodeTransformer):
         return node
 
 
+class DeMorgan(ast.NodeTransformer):
+    """in the test of an if / while / assert: `a or b` -> `not (not a and not b)`; `a and b` -> `not (not a or not b)`"""
+
+    def _flip(self, t):
+        if isinstance(t, ast.BoolOp):
+            other = ast.And() if isinstance(t.op, ast.Or) else ast.Or()
+            return ast.UnaryOp(op=ast.Not(), operand=ast.BoolOp(op=other, values=[ast.UnaryOp(op=ast.Not(), operand=v) for v in t.values]))
+        return t
+
+    def visit_If(self, node):
+        self.generic_visit(node)
+        node.test = self._flip(node.test)
+        return node
+
+    def visit_While(self, node):
+        self.generic_visit(node)
+        node.test = self._flip(node.test)
+        return node
+
+
+class RangeCmp(ast.NodeTransformer):
+    """`x < LO or x > HI` (same plain name x, integer literals) -> `not LO <= x <= HI`;  `LO <= x <= HI` -> `x >= LO and x <= HI`"""
+
+    @staticmethod
+    def _lit(e):
+        if isinstance(e, ast.Constant) and type(e.value) is int:
+            return True
+        return isinstance(e, ast.UnaryOp) and isinstance(e.op, ast.USub) and isinstance(e.operand, ast.Constant) and type(e.operand.value) is int
+
+    def visit_BoolOp(self, node):
+        self.generic_visit(node)
+        if isinstance(node.op, ast.Or) and len(node.values) == 2:
+            a, b = node.values
+            if all(isinstance(c, ast.Compare) and len(c.ops) == 1 and isinstance(c.left, ast.Name) and self._lit(c.comparators[0]) for c in (a, b)) and a.left.id == b.left.id and isinstance(a.ops[0], ast.Lt) and isinstance(b.ops[0], ast.Gt):
+                return ast.UnaryOp(op=ast.Not(), operand=ast.Compare(left=a.comparators[0], ops=[ast.LtE(), ast.LtE()], comparators=[ast.Name(id=a.left.id, ctx=ast.Load()), b.comparators[0]]))
+        return node
+
+    def visit_Compare(self, node):
+        self.generic_visit(node)
+        if len(node.ops) == 2 and all(isinstance(o, ast.LtE) for o in node.ops) and isinstance(node.comparators[0], ast.Name) and self._lit(node.left) and self._lit(node.comparators[1]):
+            x = node.comparators[0].id
+            return ast.BoolOp(op=ast.And(), values=[ast.Compare(left=ast.Name(id=x, ctx=ast.Load()), ops=[ast.GtE()], comparators=[node.left]), ast.Compare(left=ast.Name(id=x, ctx=ast.Load()), ops=[ast.LtE()], comparators=[node.comparators[1]])])
+        return node
+
+
 class ElseAfterReturn(ast.NodeTransformer):
     """`if c: ...return/raise` followed by the rest of the block -> the rest moves into an else branch"""
 
@@ -178,6 +223,10 @@ def transform(src: str, which: str) -> str:
         tree = SplitAnd().visit(tree)
     if which == "elseafter":
         tree = ElseAfterReturn().visit(tree)
+    if which == "demorgan":
+        tree = DeMorgan().visit(tree)
+    if which == "rangecmp":
+        tree = RangeCmp().visit(tree)
     if which == "argtemps":
         tree = ArgTemps().visit(tree)
     ast.fix_missing_locations(tree)
